@@ -3,7 +3,7 @@
 tier=${1:-quick}; shift
 rc=0
 for p in C01 C02 C03 C04 C05 C06 C07 C08 C09 C10 C11 C12 C15 C16 C17 C18 C19; do
-  /venv/bin/python /verif/sim/driver.py check $p --tier $tier "$@" 2>&1 | cut -c1-260
+  /venv/bin/python "$(dirname "$(readlink -f "$0")")/sim/driver.py" check $p --tier $tier "$@" 2>&1 | cut -c1-260
   r=${PIPESTATUS[0]}; [ $r -ne 0 ] && { echo "  -> $p exit $r"; rc=1; }
 done
 exit $rc
